@@ -10,7 +10,7 @@ try:
     print('MANIFEST ok:', len(m['checks']), 'checks')
 except Exception as e:
     ok = False; print('MANIFEST INVALID', str(e)[:500])
-for f in sorted(glob.glob('/verif/evidence/*.json')):
+for f in sorted(glob.glob('/verif/evidence/*.json') + glob.glob('/verif/evidence/thorough/*.json')):
     try:
         jsonschema.validate(json.load(open(f)), es)
         print('ok', f)
